@@ -36,11 +36,16 @@ CONSTANTS
   Timed,          \* TRUE: discrete clock, timers fire at their deadline (InvBoundedWait)
   T, MaxTime,     \* timeout + leniency in ticks, clock bound
   EarlyCancel,    \* the context of a call may end before the request is written
+  NoTimeouts,     \* TRUE: no timer / context events (configurations in which request ids are reused while
+                  \* the first user may still be pending: a call then ends only through its response, so an
+                  \* id is free again only after its response was consumed)
   Mode,           \* "mc" | "script" | "race"
   SymBreak,       \* generation: callers are interchangeable, so caller n+1 starts only after caller n did
+  \* the code as it is (open finding):
+  Dev_GateIgnoresDeadline, \* a call waiting at the renewal gate honours neither timeout nor context
+  \* repaired in /repo (a6d06b1, 49b62b1): FALSE in every conformance configuration, kept as demos
   Dev_OpnTimeoutWedge,     \* dispatcher locks the receive gate in a separate step after popHandler
   Dev_LeakOnEarlyCancel,   \* handler registered although the context already ended, not removed
-  Dev_GateIgnoresDeadline, \* a call waiting at the renewal gate honours neither timeout nor context
   Dev_KeyMask,             \* (demo) handler table keyed by id % 2
   Dev_NoTypeCheck,         \* (demo) wrong response type accepted
   Dev_NoPopOnTimeout       \* (demo) the timeout arm leaves the handler registered
@@ -185,6 +190,7 @@ TakeMsg(p) ==                      \* case msg := <-ch
                  dpc, dmsg, dch, extra, now, hist>>
 
 TimerArm(p) ==                     \* case <-timer.C (hook wait.timeout)
+  /\ ~NoTimeouts
   /\ pc[p] = "wait"
   /\ IF Timed THEN now >= dl[p] ELSE EnvOK
   /\ (Mode # "mc" => box[p] = NoMsg)
@@ -194,7 +200,7 @@ TimerArm(p) ==                     \* case <-timer.C (hook wait.timeout)
                  dpc, dmsg, dch, rcvGate, reqGate, extra, now, results>>
 
 Cancel(p) ==                       \* the caller's context ends
-  /\ p \in Callers /\ ~ctxd[p] /\ EnvOK
+  /\ p \in Callers /\ ~ctxd[p] /\ EnvOK /\ ~NoTimeouts
   /\ \/ /\ pc[p] = "wait" /\ (Mode # "mc" => box[p] = NoMsg)        \* case <-ctx.Done() (hook wait.ctx)
         /\ pc' = [pc EXCEPT ![p] = "ctxp"] /\ UNCHANGED ctxd
      \/ /\ EarlyCancel                                     \* before the request is written
